@@ -11,6 +11,7 @@ import FxVerif.Model.Util
   the executed claim (if this vote made an attestation observed), the claim stored for `ExecuteClaim` and the attestation
   table of the nonce under vote; `pow <oracle> <power|none>` / `total <t>`: power changes between votes (delegation,
   slashing, removal — environment); `run <nonce> <handlerFails>`: `ExecuteClaim`;
+* `hbt <module> <store k:v,…|-> <bt claim line>`: the regenerated statement list of `AddBridgeTokenExecuted`, interpreted;
 * `akey <nonce> <hash hex>` / `pkey <nonce>`: the bytes of `GetAttestationKey` / `GetPendingExecuteClaimKey` from the regenerated
   layouts. -/
 open FxVerif FxVerif.Util FxVerif.Model.C03
@@ -86,6 +87,11 @@ def cfgEntry (s : String) : Option (Nat × Str) :=
   | [p, a] => do pure (← p.toNat?, ← str a)
   | _ => none
 
+def kvOf (s : String) : Option (Str × Str) :=
+  match s.splitOn ":" with
+  | [k, v] => do pure (← str k, ← str v)
+  | _ => none
+
 def indexed {α : Type} : Nat → List α → List (Nat × α)
   | _, [] => []
   | i, x :: r => (i, x) :: indexed (i + 1) r
@@ -119,6 +125,19 @@ def opLine (d : DState) : List String → Option (DState × String)
     pure ({ d with st := stepWith [] (fun c => hashHex c.path) (fun _ _ => true) d.st (.setPower o pw) }, "ok")
   | ["total", t] => do
     pure ({ d with st := { d.st with total := (← t.toNat?) } }, "ok")
+  | "hbt" :: m :: pre :: claim => do
+    -- `Keeper.AddBridgeTokenExecuted` of module `m` on a bridge-denom store holding `pre`: the regenerated statement list
+    -- interpreted (`runAddBridgeToken`)
+    let (c, _, _) ← parseClaim claim
+    let st ← if pre == "-" then pure [] else (pre.splitOn ",").mapM kvOf
+    match c with
+    | .bt b =>
+      let h (x : Str) : String := hex (x.map Char.toNat)
+      match runAddBridgeToken (← str m) st b with
+      | .ok w => pure (d, "ok " ++ ",".intercalate ((w.map fun p => h p.1 ++ "=" ++ h p.2).foldr insertSorted []))
+      | .err => pure (d, "err")
+      | .stuck => pure (d, "stuck")
+    | _ => none
   | ["akey", n, h] => do
     -- `types.GetAttestationKey(n, h)`: the regenerated layout interpreted by the model
     pure (d, hex (keyBytes (← n.toNat?) (← unhex h) FxVerif.Gen.C03.attestationKeyParts))
